@@ -47,6 +47,7 @@ PAT_EXPLICIT_TITLE = re.compile(
     r"^(?P<label>.*?)\s*(?<!\x00)<(?P<target>.*?)>$", re.DOTALL
 )
 PAT_WHITESPACE = re.compile(r"^\x20*")
+PAT_OPTION_LINE = re.compile(r":[^:`\s][^:`]*:(\s|$)")
 PAT_BLOCK_HAS_ARGUMENT = re.compile(r"^\x20*\.\.\x20[^\s]+::\s*\S+")
 PAT_OPTION = re.compile(r"((?:/|--|-|\+)?[^\s=]+)(=?\s*.*)")
 PAT_ISO_8601 = re.compile(r"^([0-9]{4})-(1[0-2]|0[1-9])-(3[01]|0[1-9]|[12][0-9])$")
@@ -530,7 +531,9 @@ class BaseDocutilsDirective(tinydocutils.directives.Directive):
         is a heuristic that is not part of docutils, since docutils requires
         each directive to define its syntax.
         """
-        if not self.arguments or self.arguments[0].startswith(":"):
+        # What looks like the start of an option list (":class: foo") is no argument; an
+        # argument that begins with a role (":guilabel:`Save` first") is one
+        if not self.arguments or PAT_OPTION_LINE.match(self.arguments[0]):
             return
 
         arg_lines = self.arguments[0].split("\n")
